@@ -1,5 +1,7 @@
 import MoPepGen.Lemmas.SpecMono
 import MoPepGen.Lemmas.Graph
+import MoPepGen.Lemmas.GraphCuts
+import MoPepGen.Lemmas.Haplotype
 import MoPepGen.Props.C10
 /-!
 # C01 — completeness of callVariant  (PARTIAL: the graph construction is not modelled)
@@ -8,7 +10,8 @@ What is proved here, for ALL inputs: the executable oracle `Spec.callVariant`, w
 check evaluates on the inputs of the real command, is exactly the declarative statement of
 the property (∃ compatible combination of the usable records … minus the unmodified
 transcript's products and the canonical pool), its haplotypes are exactly the separated
-sub-collections of the record pool, and its digest is the digest proved correct in C10.
+sub-collections of the record pool (`mem_haplotypes_iff`: no enumeration, no sort left in
+the statement), and its digest is the digest proved correct in C10.
 That the REAL command reports every member of this set is decided per generated input by
 the differential `harness/c01.py` (no theorem quantifies over the real graph algorithm).
 -/
@@ -163,5 +166,260 @@ example : (∀ v ∈ recordPool
 
 open MoPepGen.Graph in
 example : cuts ["AK".toList, "CR".toList, "D".toList] = [0, 2, 4, 5] := by decide
+
+/-! ## the haplotypes of the definition, characterised without the enumeration
+
+`haplotypes` is an executable enumeration (`sublists` of the pool, insertion sort, filter).
+The theorem below removes every operational ingredient: a haplotype is any non-empty,
+ascending, strictly separated list of pool records.  Hypothesis: the records of the pool are
+well-formed intervals (`start ≤ stop`; VCF-style records have `start < stop`).  The pool need
+NOT be duplicate-free (`Hap.exists_sublist_perm` picks the first occurrence of each record). -/
+
+/-- `h` is a haplotype of the definition iff it is non-empty, strictly separated (which for
+well-formed records includes: ascending and duplicate-free) and made of pool records. -/
+theorem mem_haplotypes_iff (t : TxIn) (vs h : List Var)
+    (hpos : ∀ v ∈ recordPool t vs, v.start ≤ v.stop) :
+    h ∈ haplotypes t vs ↔ h ≠ [] ∧ separated h = true ∧ ∀ v ∈ h, v ∈ recordPool t vs := by
+  constructor
+  · intro hh
+    obtain ⟨s, _, _, hne, hsep⟩ := (haplotype_spec t vs h).mp hh
+    exact ⟨hne, hsep, haplotype_records_usable t vs h hh⟩
+  · rintro ⟨hne, hsep, hsub⟩
+    obtain ⟨s, hs, he⟩ :=
+      Hap.exists_sublist_sort_eq (pool := recordPool t vs) hsep (fun v hv => hpos v (hsub v hv)) hsub
+    exact (haplotype_spec t vs h).mpr ⟨s, hs, he, hne, hsep⟩
+
+/-- for a duplicate-free pool the sub-collection behind a haplotype is explicit: the pool
+records that occur in it, in pool order -/
+theorem haplotype_is_sorted_filter (t : TxIn) (vs h : List Var)
+    (hnd : (recordPool t vs).Nodup) (hpos : ∀ v ∈ recordPool t vs, v.start ≤ v.stop)
+    (hh : h ∈ haplotypes t vs) :
+    sortByStart ((recordPool t vs).filter fun v => decide (v ∈ h)) = h := by
+  obtain ⟨_, hsep, hsub⟩ := (mem_haplotypes_iff t vs h hpos).mp hh
+  exact Hap.filter_sort_eq hnd hsep (fun v hv => hpos v (hsub v hv)) hsub
+
+/-- a haplotype is strictly ascending in `start`, hence duplicate-free, and sorting it again
+changes nothing -/
+theorem haplotype_strictly_ascending (t : TxIn) (vs h : List Var)
+    (hpos : ∀ v ∈ recordPool t vs, v.start ≤ v.stop) (hh : h ∈ haplotypes t vs) :
+    h.Pairwise (fun a b => a.start < b.start) ∧ h.Nodup ∧ sortByStart h = h := by
+  obtain ⟨_, hsep, hsub⟩ := (mem_haplotypes_iff t vs h hpos).mp hh
+  have hs := Hap.strictStarts_of_separated h hsep (fun v hv => hpos v (hsub v hv))
+  exact ⟨hs, Hap.nodup_of_strictStarts hs, Hap.sortByStart_id hs⟩
+
+/-- every record the combinations are made of starts behind the start codon
+(`startIndex t` ≥ 3): `usable` drops the others, a merged pair starts where its first record
+starts — so the hypothesis `0 < v.start` of the CP1 theorems always holds -/
+theorem recordPool_behind_start_codon (t : TxIn) (vs : List Var) :
+    ∀ v ∈ recordPool t vs, startIndex t ≤ v.start ∧ 3 ≤ v.start := by
+  intro v hv
+  have := Hap.pool_start_ge t vs v hv
+  refine ⟨this, ?_⟩
+  simp only [startIndex] at this
+  omega
+
+/-! non-vacuity of `mem_haplotypes_iff` / `haplotype_is_sorted_filter`: a coding transcript with
+two SNVs behind the start codon (given in DESCENDING order, so the sort matters); the pool is
+duplicate-free with non-empty spans, and the combination of both records is a haplotype -/
+section NonVacuity
+/-- example data for the non-vacuity checks of C01/C02 (not part of any statement) -/
+def nvTx : TxIn :=
+  { seq := "ATGGCCAAATAG".toList, coding := true, orfStart := 0, orfEnd := 9, startNF := false,
+    endNF := false, sec := [] }
+/-- example SNV G→T at 3 -/
+def nvA : Var := { start := 3, stop := 4, ref := ['G'], alt := ['T'], cls := .snv, ids := [0] }
+/-- example SNV A→C at 7 -/
+def nvB : Var := { start := 7, stop := 8, ref := ['A'], alt := ['C'], cls := .snv, ids := [1] }
+
+example : (recordPool nvTx [nvB, nvA]).Nodup ∧ (∀ v ∈ recordPool nvTx [nvB, nvA], v.start ≤ v.stop) := by
+  decide
+example : recordPool nvTx [nvB, nvA] = [nvB, nvA] := by decide
+example : [nvA, nvB] ≠ [] ∧ separated [nvA, nvB] = true ∧ ∀ v ∈ [nvA, nvB], v ∈ recordPool nvTx [nvB, nvA] := by
+  decide
+example : [nvA, nvB] ∈ haplotypes nvTx [nvB, nvA] :=
+  (mem_haplotypes_iff nvTx [nvB, nvA] [nvA, nvB] (by decide)).mpr (by decide)
+example : [nvB, nvA] ∉ haplotypes nvTx [nvB, nvA] := by
+  rw [mem_haplotypes_iff nvTx [nvB, nvA] [nvB, nvA] (by decide)]; decide
+end NonVacuity
+
+/-! ## Layer G — the right-hand sides of the checkpoints are images of one another
+
+CP1/CP2 compare the dumped graph with `tvgLang`, CP3/CP4 with `protLang`.  By unfolding:
+the sequences of `tvgLang t vs f` are the `applyHap` sequences cut at the frame offset, and
+`protLang t vs f` is their translation (annotated Sec codons that survive the combination
+read `U`), combination by combination.  The proteins the definition digests
+(`proteinFrom`) are these frame translations cut at the first stop. -/
+
+open MoPepGen.Graph in
+/-- CP1's right-hand side: the DNA language of frame `f` is the language of the definition
+(`applyHap` of every compatible combination, the empty one included) cut at offset `f` -/
+theorem tvgLang_frame (t : TxIn) (vs : List Var) (f : Nat) :
+    (tvgLang t vs f).map (·.1) = ((allHaps t vs).map (applyHap t.seq)).map (List.drop f) := by
+  simp only [tvgLang, List.map_map]
+  rfl
+
+open MoPepGen.Graph in
+/-- the labels of CP1's right-hand side are the ids of the combination's records -/
+theorem tvgLang_labels (t : TxIn) (vs : List Var) (f : Nat) :
+    (tvgLang t vs f).map (·.2) = (allHaps t vs).map hapIds := by
+  simp only [tvgLang, List.map_map]
+  rfl
+
+open MoPepGen.Graph in
+/-- CP3's right-hand side is the translation of CP1's: combination by combination, the protein
+of frame `f` is the frame translation of the DNA sequence `tvgLang` lists for it, with the Sec
+codons surviving that combination -/
+theorem protLang_eq_translate_tvgLang (t : TxIn) (vs : List Var) (f : Nat) :
+    protLang t vs f =
+      List.zipWith (fun h e => Hap.frameTranslation e.1 (secAfter t.sec h) f)
+        (allHaps t vs) (tvgLang t vs f) := by
+  simp only [protLang, tvgLang, List.zipWith_map_right, List.zipWith_self,
+    Hap.fullTranslation_eq_frame]
+
+open MoPepGen.Graph in
+/-- the same without the helper `frameTranslation`: the frame-`f` translation only reads the
+cut sequence, i.e. it is the frame-0 translation of `tvgLang`'s sequence with the Sec
+positions taken relative to `f` -/
+theorem protLang_eq_translate_tvgLang_zero (t : TxIn) (vs : List Var) (f : Nat) :
+    protLang t vs f =
+      List.zipWith (fun h e => fullTranslation e.1 (Hap.secFrom (secAfter t.sec h) f) 0)
+        (allHaps t vs) (tvgLang t vs f) := by
+  simp only [protLang, tvgLang, List.zipWith_map_right, List.zipWith_self]
+  apply List.map_congr_left
+  intro h _
+  exact Hap.fullTranslation_drop _ _ _
+
+open MoPepGen.Graph in
+/-- the protein the definition digests is the frame translation cut at the first stop -/
+theorem proteinFrom_eq_fullTranslation (seq : List Char) (sec : List Nat) (s : Nat) :
+    (proteinFrom seq sec s).1 = (fullTranslation seq sec s).takeWhile (· != '*') := rfl
+
+open MoPepGen.Graph in
+/-- … and it is reported as closed exactly when a stop symbol remains in that translation -/
+theorem proteinFrom_closed_iff (seq : List Char) (sec : List Nat) (s : Nat) :
+    (proteinFrom seq sec s).2 = true ↔
+      ((fullTranslation seq sec s).takeWhile (· != '*')).length < (fullTranslation seq sec s).length := by
+  simp only [proteinFrom, fullTranslation, decide_eq_true_eq]
+
+open MoPepGen.Graph in
+example : tvgLang nvTx [nvB, nvA] 1 =
+    [("TGGCCAAATAG".toList, []), ("TGTCCAAATAG".toList, [0]), ("TGGCCACATAG".toList, [1]),
+     ("TGTCCACATAG".toList, [0, 1])] := by decide
+
+open MoPepGen.Graph in
+example : protLang nvTx [nvB, nvA] 0 = ["MAK*".toList, "MSK*".toList, "MAT*".toList, "MST*".toList] := by
+  decide
+
+
+/-! ## Layer G — checkpoint CP4 covers every digestion product -/
+
+/-! The native driver evaluates CP4 on the cleavage graph the real code built as: for every
+maximal path `p`, every element of `requiredCuts rule exc (pathSeq g p)` is a member of
+`boundaries g false p` (`Driver/G.lean`, `cpPvg`).  `digest_product_is_node_join` above speaks
+about a protein WITHOUT stop symbols whose sites are given as cuts.  The theorems of this block
+close the gap to the checkpoint as evaluated: the path's protein may contain stop symbols, the
+digest is taken per stop-delimited segment (the strings `Spec.rawProducts` is applied to are
+stop-free), and the hypothesis is literally the driver's predicate.  Not covered: a
+translation that starts INSIDE a segment (the ORF start is not a node boundary;
+`call_variant_peptides` truncates the first node there) — the digest of a proper suffix of a
+segment can have other sites next to its start than the segment has. -/
+
+open MoPepGen.Graph in
+/-- **CP4 ⇒ every digestion product of every stop-free stretch is a join of whole nodes.**
+For every graph `g`, every list of node indices `p` (no well-formedness needed: an index
+outside the graph denotes the empty label, as in `pathSeq`), every rule and exception: if every
+required cut of the path's protein `pathSeq g p` is a node boundary of the path (the driver's
+CP4 predicate), then for every stop-delimited segment `(off, seg)` of that protein and any two
+bounds `a`, `b` of the digest of `seg` (`0`, a cleavage site of `seg`, `|seg|`), the candidate
+`seg[a:b]` is the concatenation of consecutive whole node labels of the path.  (No order
+hypothesis: for `b < a` the slice is empty, the join of zero nodes.) -/
+theorem cp4_covers_products (g : Graph) (p : List Nat) (rule : Re) (exc : Option Re)
+    (hcp : ∀ c ∈ requiredCuts rule exc (pathSeq g p), c ∈ boundaries g false p)
+    (off : Nat) (seg : List Char) (hseg : (off, seg) ∈ stopSegments (pathSeq g p))
+    (a b : Nat)
+    (ha : a ∈ bounds (cleaveSites rule exc seg) seg.length)
+    (hb : b ∈ bounds (cleaveSites rule exc seg) seg.length) :
+    ∃ i k, slice seg a b = (((p.map (nodeSeq g)).drop i).take k).flatten := by
+  rcases Nat.lt_or_ge b a with hlt | hab
+  · exact ⟨0, 0, by simp [gc_slice_empty seg a b (Nat.le_of_lt hlt)]⟩
+  · obtain ⟨hseq, _, _⟩ := gc_stopSegments_spec _ off seg hseg
+    obtain ⟨_, hca⟩ := gc_bound_mem_cuts g p rule exc hcp off seg hseg a ha
+    obtain ⟨hble, hcb⟩ := gc_bound_mem_cuts g p rule exc hcp off seg hseg b hb
+    obtain ⟨i, k, hik⟩ :=
+      slice_is_join (p.map (nodeSeq g)) (off + a) (off + b) hca hcb (by omega)
+    refine ⟨i, k, ?_⟩
+    rw [← hik, gc_flatten_map_nodeSeq, hseq]
+    exact gc_slice_slice _ off seg.length a b hble
+
+open MoPepGen.Graph in
+/-- the segments CP4 speaks about are what the definition digests: a stop-delimited segment
+`(off, seg)` of `w` is `w[off : off+|seg|]`, lies inside `w` and contains no stop symbol -/
+theorem stopSegment_spec (w : List Char) (off : Nat) (seg : List Char)
+    (h : (off, seg) ∈ stopSegments w) :
+    seg = slice w off (off + seg.length) ∧ off + seg.length ≤ w.length ∧ ∀ c ∈ seg, c ≠ '*' :=
+  gc_stopSegments_spec w off seg h
+
+open MoPepGen.Graph in
+/-- every node boundary of a path is a cut position of the path's list of node labels
+(the driver's `boundaries` and the `cuts` of `digest_product_is_node_join` agree) -/
+theorem boundaries_are_cuts (g : Graph) (p : List Nat) (c : Nat)
+    (h : c ∈ boundaries g false p) : c ∈ cuts (p.map (nodeSeq g)) :=
+  gc_boundaries_subset_cuts g p c h
+
+open MoPepGen.Graph in
+/-- **CP4 ⇒ every raw product of the definition's digest is a join of whole nodes**, phrased
+with `Spec.rawProducts` itself (any miscleavage limit, any `nf`, with or without dropping the
+products that reach an open end): under the driver's CP4 predicate, every
+`q ∈ rawProducts c seg nf d` of a stop-delimited segment `seg` of the path's protein is either
+the concatenation `J` of consecutive whole node labels of the path, or — the Met-removed twin,
+only for `nf = false` and `J` starting with `M` — `J` with its first residue dropped. -/
+theorem cp4_covers_rawProducts (g : Graph) (p : List Nat) (c : CleaveCfg)
+    (hcp : ∀ x ∈ requiredCuts c.rule c.exc (pathSeq g p), x ∈ boundaries g false p)
+    (off : Nat) (seg : List Char) (hseg : (off, seg) ∈ stopSegments (pathSeq g p))
+    (nf d : Bool) (q : Pep) (hq : q ∈ rawProducts c seg nf d) :
+    ∃ i k, q = (((p.map (nodeSeq g)).drop i).take k).flatten ∨
+      (nf = false ∧ ((((p.map (nodeSeq g)).drop i).take k).flatten).head? = some 'M' ∧
+        q = ((((p.map (nodeSeq g)).drop i).take k).flatten).drop 1) := by
+  rw [mem_rawProducts] at hq
+  obtain ⟨st, k', hst, hk, _, hq⟩ := hq
+  have hmem : ∀ n, n < (bounds (cleaveSites c.rule c.exc seg) seg.length).length →
+      (bounds (cleaveSites c.rule c.exc seg) seg.length).getD n 0 ∈
+        bounds (cleaveSites c.rule c.exc seg) seg.length := by
+    intro n hn
+    simp [List.getD_eq_getElem?_getD, List.getElem?_eq_getElem hn]
+  obtain ⟨i, k, hik⟩ := cp4_covers_products g p c.rule c.exc hcp off seg hseg _ _
+    (hmem st (by omega)) (hmem (st + 1 + k') (by omega))
+  refine ⟨i, k, ?_⟩
+  rw [← hik]
+  rcases hq with hq | ⟨_, hnf, hM, hq⟩
+  · exact Or.inl hq
+  · exact Or.inr ⟨hnf, hM, hq⟩
+
+/-! non-vacuity of the CP4 hypothesis: the path `AK · CR · * · DE` under trypsin — the protein
+`AKCR*DE` has the segments `AKCR` at 0 and `DE` at 5, the required cuts are 2 (after K), 4
+(after R = before the stop) and 5 (behind the stop), and all are node boundaries.  With `CR*`
+in ONE node the predicate is false (position 4 is inside the node): the hypothesis
+discriminates. -/
+open MoPepGen.Graph in
+example :
+    let g : Graph := #[{ seq := "AK".toList, vars := [], out := [1] },
+      { seq := "CR".toList, vars := [], out := [2] }, { seq := "*".toList, vars := [], out := [3] },
+      { seq := "DE".toList, vars := [], out := [] }]
+    (Generated.expasyRules.lookup "trypsin").map (fun rule =>
+      (String.ofList (pathSeq g [0, 1, 2, 3]),
+       (stopSegments (pathSeq g [0, 1, 2, 3])).map (fun x => (x.1, String.ofList x.2)),
+       requiredCuts rule none (pathSeq g [0, 1, 2, 3]), boundaries g false [0, 1, 2, 3],
+       (requiredCuts rule none (pathSeq g [0, 1, 2, 3])).all
+         (boundaries g false [0, 1, 2, 3]).contains)) =
+      some ("AKCR*DE", [(0, "AKCR"), (5, "DE")], [2, 4, 5], [2, 4, 5], true) := by decide
+
+open MoPepGen.Graph in
+example :
+    let g : Graph := #[{ seq := "AK".toList, vars := [], out := [1] },
+      { seq := "CR*".toList, vars := [], out := [2] }, { seq := "DE".toList, vars := [], out := [] }]
+    (Generated.expasyRules.lookup "trypsin").map (fun rule =>
+      (requiredCuts rule none (pathSeq g [0, 1, 2]), boundaries g false [0, 1, 2],
+       (requiredCuts rule none (pathSeq g [0, 1, 2])).all (boundaries g false [0, 1, 2]).contains)) =
+      some ([2, 4, 5], [2, 5], false) := by decide
 
 end MoPepGen.Props.C01
